@@ -240,6 +240,7 @@ func c08Locators(r *engine.Run) bool {
 		}
 		c := c08Case{Kind: "locator", Str: s, Feats: t, L: L}
 		r.Evals.Add(1)
+		r.Journal(c)
 		r.Transitions.Add(1)
 		ok, sig, detail := c08LocatorEval(c)
 		if len(t) >= 2 && strings.Contains(s, "@") {
